@@ -1,0 +1,139 @@
+//go:build verif
+
+package sse
+
+import (
+	"math/rand"
+	"time"
+
+	"github.com/tmaxmax/go-sse/internal/parser"
+)
+
+// This file exists only under the verif build tag. It gives the verification
+// harness read access to state the properties speak about but the API hides.
+// It changes no behaviour.
+
+// VerifQueueState is a snapshot of a replayer's ring buffer.
+type VerifQueueState struct {
+	// Slots holds, for every slot of the ring, the stored message (nil if the slot is empty).
+	Slots []*Message
+	// Exp holds the expiry instants of the slots (ValidReplayer only).
+	Exp               []time.Time
+	Head, Tail, Count int
+}
+
+// VerifState returns a snapshot of the ring buffer.
+func (f *FiniteReplayer) VerifState() VerifQueueState {
+	st := VerifQueueState{Head: f.buf.head, Tail: f.buf.tail, Count: f.buf.count}
+	for _, e := range f.buf.buf {
+		st.Slots = append(st.Slots, e.message)
+	}
+	return st
+}
+
+// VerifState returns a snapshot of the ring buffer.
+func (v *ValidReplayer) VerifState() VerifQueueState {
+	st := VerifQueueState{Head: v.messages.head, Tail: v.messages.tail, Count: v.messages.count}
+	for _, e := range v.messages.buf {
+		st.Slots = append(st.Slots, e.message)
+		st.Exp = append(st.Exp, e.exp)
+	}
+	return st
+}
+
+// VerifLastGC returns the instant of the last collection triggered by Put.
+func (v *ValidReplayer) VerifLastGC() time.Time { return v.lastGC }
+
+// VerifBackoff drives a backoffController with a scripted random source and elapsed time.
+type VerifBackoff struct {
+	c backoffController
+	b Backoff
+}
+
+// VerifNewBackoff normalises the configuration exactly as NewConnection does
+// and creates a controller drawing from src.
+func VerifNewBackoff(b Backoff, src rand.Source) *VerifBackoff {
+	c := &Client{Backoff: b}
+	mergeDefaults(c)
+	v := &VerifBackoff{b: c.Backoff}
+	v.c = v.b.new()
+	v.c.rng = rand.New(src)
+	return v
+}
+
+// Config returns the normalised configuration.
+func (v *VerifBackoff) Config() Backoff { return v.b }
+
+// Next calls next() as if elapsed had passed since the start of the retry series.
+func (v *VerifBackoff) Next(elapsed time.Duration) (time.Duration, bool) {
+	v.c.start = time.Now().Add(-elapsed)
+	return v.c.next()
+}
+
+// Reset calls reset().
+func (v *VerifBackoff) Reset(newInterval time.Duration) { v.c.reset(newInterval) }
+
+// State returns the controller's next base interval and retry count.
+func (v *VerifBackoff) State() (interval time.Duration, numRetries int) {
+	return v.c.interval, v.c.numRetries
+}
+
+// VerifCallbackCount returns the number of registered callbacks (per-type, to-all) and types.
+func (c *Connection) VerifCallbackCount() (typed, all, types int) {
+	c.mu.RLock()
+	defer c.mu.RUnlock()
+	for _, m := range c.callbacks {
+		typed += len(m)
+	}
+	return typed, len(c.callbacksAll), len(c.callbacks)
+}
+
+// VerifLastEventID returns the connection's stored last event ID.
+func (c *Connection) VerifLastEventID() string { return c.lastEventID }
+
+// VerifSplitFunc exposes the scanner split function.
+func VerifSplitFunc(data []byte, atEOF bool) (int, []byte, error) {
+	return parser.VerifSplitFunc(data, atEOF)
+}
+
+// VerifField is a parsed field.
+type VerifField struct{ Name, Value string }
+
+// VerifFieldParse runs a FieldParser over data and returns all fields, its error and Started().
+func VerifFieldParse(data string, keepComments, removeBOM bool) (fields []VerifField, err error, started bool) {
+	p := parser.NewFieldParser(data)
+	p.KeepComments(keepComments)
+	p.RemoveBOM(removeBOM)
+	for f := (parser.Field{}); p.Next(&f); {
+		fields = append(fields, VerifField{string(f.Name), f.Value})
+	}
+	return fields, p.Err(), p.Started()
+}
+
+// VerifParse runs a Parser over r and returns all fields and the final error.
+func VerifParse(p *parser.Parser) (fields []VerifField, err error) {
+	for f := (parser.Field{}); p.Next(&f); {
+		fields = append(fields, VerifField{string(f.Name), f.Value})
+	}
+	return fields, p.Err()
+}
+
+// VerifNextChunk exposes parser.NextChunk.
+func VerifNextChunk(s string) (chunk, remaining string, hasNewline bool) {
+	return parser.NextChunk(s)
+}
+
+// VerifChunks returns the message's chunks as (content, isComment) pairs.
+func (e *Message) VerifChunks() (contents []string, isComment []bool) {
+	for _, c := range e.chunks {
+		contents = append(contents, c.content)
+		isComment = append(isComment, c.isComment)
+	}
+	return
+}
+
+// VerifChunkCap returns len and cap of the chunk slice (aliasing model of Clone).
+func (e *Message) VerifChunkCap() (length, capacity int) { return len(e.chunks), cap(e.chunks) }
+
+// VerifNewParser exposes parser.New.
+func VerifNewParser(r interface{ Read([]byte) (int, error) }) *parser.Parser { return parser.New(r) }
